@@ -14,7 +14,11 @@ LEVEL = ("No-overlap, in-range/size (no uint16 wrap), stable-until-released and 
          "a positive block size and rangeEnd <= 65535. The model is tied to the real Go code by differential "
          "execution (real Manager, real Logger writing JSON into a buffer); concurrent callers are placed between "
          "precheck and pool lock deterministically through a verif hook on the pool mutex; the C10 monitor judges "
-         "the real code's answers and log records.")
+         "the real code's answers and log records. The logger's buffer/flush split is exercised too: the harness can stop "
+         "flushing after each call (`buffer`), park a Logger.Flush/FlushPortBlocks inside its first Write through a stalling "
+         "writer (`flushhold`) while allocations and releases go on, and then let it finish and flush again (`flushrelease`); "
+         "the `attrib` clause includes a record ledger (every observed allocation/release owes exactly one record; duplicates, "
+         "strays and records missing after the final flush are failures), proved silent on the model (ledger_silent_on_model).")
 ASSUME = [
     "each critical section is one atomic step (AllocateNAT: lookup under allocationMu.RLock, then everything under poolMu; "
     "DeallocateNAT and AddPublicIP: one section under poolMu); data races inside a critical section are not modelled",
@@ -24,6 +28,9 @@ ASSUME = [
     "log time = position in the log; the harness checks that record timestamps never go backwards; the deallocate record's duration_ms is not compared",
     "queued callers acquire the pool mutex in FIFO order (Go's sync.Mutex hands off to parked waiters in queue order)",
     "subscriber-id counter wrap at 2^32 is modelled but not reached",
+    "the model's log is the sequence of records in emission order; the logger's buffering is modelled in the driver only (records of a "
+    "`buffer` … `flushrelease` stretch are compared when flushed); at most 40 calls per stretch (below the logger's own 50-record auto-flush); "
+    "rotation, file output, the background flushLoop's timing and Stop are not exercised",
 ]
 
 
